@@ -120,7 +120,7 @@ class BaseDatasetDownload(abc.ABC):
             raise e
 
     def _write_file(self, content: bytes) -> None:
-        with open(file=self.file_path, mode="ab") as f:  # type: ignore
+        with open(file=self.file_path, mode="wb") as f:  # type: ignore
             f.write(content)
 
     def download(self) -> None:
